@@ -27,20 +27,24 @@ Exps == {V!Any, V!Exists, V!Empty, V!Exact(0), V!Exact(1)}
 XInit == ApiInit
 XNext ==
     /\ n < MaxCmd
-    /\ \/ \E s \in Streams, uk \in BOOLEAN, k \in Keys, x \in Exps, ts \in {"none", "enc"} : EAppend(s, uk, k, x, ts)
+    /\ \E c \in Conns :
+       \/ \E s \in Streams, uk \in BOOLEAN, k \in Keys, x \in Exps, ts \in {"none", "enc"} : EAppend(c, s, uk, k, x, ts)
        \/ \E k \in Keys, s1 \in Streams, s2 \in Streams, x1 \in Exps, x2 \in {V!Any, V!Exact(0)}, ts2 \in {"none", "enc"} :
-             EMAppend(k, <<[s |-> s1, x |-> x1, ts |-> "none"], [s |-> s2, x |-> x2, ts |-> ts2]>>)
-       \/ \E t \in 1..MaxCmd, i \in 1..2 : EGet(t, i)
-       \/ \E s \in Streams, c \in {0, 1, 0 - 1} : EScan(s, FALSE, "k1", 0, 0 - 1, c)
-       \/ \E p \in Parts, c \in {0, 1, 0 - 1}, st \in {0 - 1, 1}, e \in {0 - 1, 0} : EPScan(FALSE, "k1", p, st, e, c)
-       \/ \E s \in Streams : ESVer(s, FALSE, "k1")
-       \/ \E p \in Parts : EPSeq(FALSE, "k1", p)
-       \/ Invalid("unknown_command")
+             EMAppend(c, k, <<[s |-> s1, x |-> x1, ts |-> "none"], [s |-> s2, x |-> x2, ts |-> ts2]>>)
+       \/ \E t \in 1..MaxCmd, i \in 1..2 : EGet(c, t, i)
+       \/ \E s \in Streams, cnt \in {0, 1, 0 - 1} : EScan(c, s, FALSE, "k1", 0, 0 - 1, cnt)
+       \/ \E p \in Parts, cnt \in {0, 1, 0 - 1}, st \in {0 - 1, 1}, e \in {0 - 1, 0} : EPScan(c, FALSE, "k1", p, st, e, cnt)
+       \/ \E s \in Streams : ESVer(c, s, FALSE, "k1")
+       \/ \E p \in Parts : EPSeq(c, FALSE, "k1", p)
+       \/ Invalid(c, "unknown_command")
        \/ \E s \in Streams, f \in {[k |-> "none"], [k |-> "all", v |-> 0]}, w \in {0 - 1, 1} :
-             Len(subs) < 1 /\ ESub(<<[s |-> s, key |-> "-"]>>, f, w)
+             Len(subs) < 1 /\ ESub(c, <<[s |-> s, key |-> "-"]>>, f, w)
        \/ \E f \in {[k |-> "latest"], [k |-> "all", v |-> 1]}, w \in {1, 2} :
-             Len(subs) < 1 /\ EPSub([k |-> "all"], f, w)
-       \/ \E i \in 1..1, c \in 1..3 : EAck(i, c)
+             Len(subs) < 1 /\ EPSub(c, [k |-> "all"], f, w)
+       \/ \E i \in 1..1, u \in 1..3 : EAck(c, i, u)
+       \/ \E i \in 1..1 : EAckForeign(c, i)
+       \/ Reconnect(c)
+       \/ Hello(c) \/ Ping(c)
 
 ----------------------------------------------------------------------------
 Rnd(S) == RandomElement({x \in S : n >= 0})
@@ -59,15 +63,15 @@ KeyFor(s) ==
     LET bound == {k \in RealKeys : \E b \in 0..(NB - 1) : BoundKey(log, b, s) = k} IN
     IF bound # {} /\ Rnd(1..10) <= 8 THEN Rnd(bound) ELSE Rnd(RealKeys)
 
-SimEAppend ==
+SimEAppend(c) ==
     \E s \in {IF Rnd(1..10) <= 3 THEN Hot ELSE Rnd(Streams)} :
     \E uk \in {LET bd == BoundKey(log, Bucket(KeyPart[DefKey[s]]), s) IN
                 IF bd = DefKey[s] THEN Rnd(1..10) <= 2 ELSE IF bd = "none" THEN Rnd(1..10) <= 5 ELSE Rnd(1..10) <= 8} :
     \E k \in {KeyFor(s)} :
     \E x \in {XPick(VerOut(CurVer(log, Bucket(KeyPart[IF uk THEN k ELSE DefKey[s]]), s)))} :
-    \E ts \in {TsPick} : EAppend(s, uk, k, x, ts)
+    \E ts \in {TsPick} : EAppend(c, s, uk, k, x, ts)
 
-SimEMAppend ==
+SimEMAppend(c) ==
     \E k \in {LET good == {x \in RealKeys : \E t \in Streams : BoundKey(log, Bucket(KeyPart[x]), t) \in {"none", x}} IN
                IF good = {} \/ Rnd(1..10) = 1 THEN Rnd(RealKeys) ELSE Rnd(good)}, cnt \in {Pick(<<1, 2, 2, 3, 3, 4>>)} :
     \E pool \in {LET ok == {s \in Streams : BoundKey(log, Bucket(KeyPart[k]), s) \in {"none", k}} IN
@@ -79,42 +83,42 @@ SimEMAppend ==
                    IN [s |-> ss[i], x |-> XPick(VerOut(cv) + before),
                        ts |-> IF (i > 1 /\ Rnd(1..10) = 1) \/ Rnd(1..40) = 1 THEN Pick(<<"enc", "ovf">>)
                               ELSE Pick(<<"none", "none", "ok", "zero", "maxok">>)]]} :
-       EMAppend(k, evs)
+       EMAppend(c, k, evs)
 
 InLog == UNION {{log[p][q].tx : q \in 1..Len(log[p])} : p \in Parts}
-SimEGet == \E t \in {IF InLog # {} /\ Rnd(1..10) <= 7 THEN Rnd(InLog) ELSE Rnd(1..(n + 1))}, i \in {Pick(<<1, 1, 2, 3, 5>>)} : EGet(t, i)
+SimEGet(c) == \E t \in {IF InLog # {} /\ Rnd(1..10) <= 7 THEN Rnd(InLog) ELSE Rnd(1..(n + 1))}, i \in {Pick(<<1, 1, 2, 3, 5>>)} : EGet(c, t, i)
 
 Starts(len) == <<0 - 1, 0 - 1, 0 - 1, 0, 0, 1, IF len > 1 THEN len - 1 ELSE 0, len, len + 1, Rnd(0..len), Rnd(0..len), Rnd(0..len), UMax>>
 Ends(len) == <<0 - 1, 0 - 1, 0 - 1, 0 - 1, 0 - 1, 0, IF len > 1 THEN len - 1 ELSE 1, len, Rnd(0..(len + 2)), Rnd(0..(len + 2)), UMax, UMax>>
 Counts == <<0 - 1, 0 - 1, 0, 1, 1, 2, 3, 5, 50, UMax>>
-SimEScan ==
+SimEScan(c) ==
     \E s \in {IF Rnd(1..10) <= 4 THEN Hot ELSE Rnd(Streams)} :
     \E uk \in {Rnd(1..10) <= 5 \/ ~ReadableBy(log, DefKey[s], s)} :
     \E k \in {LET ok == {x \in RealKeys : ReadableBy(log, x, s)} IN IF ok = {} THEN DefKey[s] ELSE
                  LET b == {x \in ok : BoundKey(log, Bucket(KeyPart[x]), s) = x} IN IF b # {} /\ Rnd(1..10) <= 7 THEN Rnd(b) ELSE Rnd(ok)} :
     \E len \in {VerOut(CurVer(log, Bucket(KeyPart[IF uk THEN k ELSE DefKey[s]]), s)) + 1} :
-    \E st \in {Pick(Starts(len))}, e \in {Pick(Ends(len))}, c \in {Pick(Counts)} :
-       EScan(s, uk, k, st, e, c)
-SimEPScan ==
+    \E st \in {Pick(Starts(len))}, e \in {Pick(Ends(len))}, cnt \in {Pick(Counts)} :
+       EScan(c, s, uk, k, st, e, cnt)
+SimEPScan(c) ==
     \E bk \in {Rnd(1..10) <= 3}, k \in {Rnd(RealKeys)} :
     \E p \in {LET ne == {q \in Parts : log[q] # << >>} IN IF ne = {} \/ Rnd(1..10) <= 2 THEN Rnd(Parts) ELSE Rnd(ne)} :
     \E len \in {Len(log[IF bk THEN KeyPart[k] ELSE p])} :
-    \E st \in {Pick(Starts(len))}, e \in {Pick(Ends(len))}, c \in {Pick(Counts)} :
-       EPScan(bk, k, p, st, e, c)
-SimBadRange ==
+    \E st \in {Pick(Starts(len))}, e \in {Pick(Ends(len))}, cnt \in {Pick(Counts)} :
+       EPScan(c, bk, k, p, st, e, cnt)
+SimBadRange(c) ==
     \E w \in {Pick(<<"ESCAN", "EPSCAN">>)}, s \in {Rnd(Streams)}, p \in {Rnd(Parts)} :
-    \E f \in {Pick(<<"plus_start", "minus_end", "plus_plus", "minus_minus">>)} : ScanBadRange(w, s, p, f)
-SimESVer ==
+    \E f \in {Pick(<<"plus_start", "minus_end", "plus_plus", "minus_minus">>)} : ScanBadRange(c, w, s, p, f)
+SimESVer(c) ==
     \E s \in {Rnd(Streams)} :
     \E uk \in {Rnd(1..10) <= 4 \/ ~ReadableBy(log, DefKey[s], s)} :
     \E k \in {LET ok == {x \in RealKeys : ReadableBy(log, x, s)} IN IF ok = {} THEN DefKey[s] ELSE Rnd(ok)} :
-       ESVer(s, uk, k)
-SimEPSeq == \E bk \in {Rnd(1..10) <= 3}, k \in {Rnd(RealKeys)}, p \in {Rnd(Parts)} : EPSeq(bk, k, p)
-SimInvalid == \E name \in {Rnd(Invalids)} : Invalid(name)
+       ESVer(c, s, uk, k)
+SimEPSeq(c) == \E bk \in {Rnd(1..10) <= 3}, k \in {Rnd(RealKeys)}, p \in {Rnd(Parts)} : EPSeq(c, bk, k, p)
+SimInvalid(c) == \E name \in {Rnd(Invalids)} : Invalid(c, name)
 
 Wins == <<0 - 1, 0 - 1, 1, 2, 3, 1000>>
-SimESub ==
-    /\ Len(subs) < 3
+SimESub(c) ==
+    /\ Len(subs) < 4
     /\ \E cnt \in {Pick(<<1, 1, 2, 2, 3>>)} :
        \E ss \in {Rnd({f \in [1..cnt -> Streams] : \A i, j \in 1..cnt : i # j => f[i] # f[j]})} :
        \E streams \in {[i \in 1..cnt |->
@@ -127,9 +131,9 @@ SimESub ==
                     ELSE Pick(<<[k |-> "none"], [k |-> "latest"], [k |-> "all", v |-> 0], [k |-> "all", v |-> Rnd(0..3)],
                                 [k |-> "map", m |-> <<[s |-> streams[1].s, v |-> vs[1]]>>],
                                 [k |-> "map", m |-> [i \in 1..cnt |-> [s |-> streams[i].s, v |-> vs[i]]]]>>)} :
-       \E w \in {Pick(Wins)} : ESub(streams, from, w)
-SimEPSub ==
-    /\ Len(subs) < 3
+       \E w \in {Pick(Wins)} : ESub(c, streams, from, w)
+SimEPSub(c) ==
+    /\ Len(subs) < 4
     /\ \E sel \in {Pick(<<[k |-> "all"], [k |-> "one", p |-> Rnd(Parts)], [k |-> "one", p |-> Rnd(Parts)],
                           [k |-> "list", ps |-> <<0, 2>>], [k |-> "list", ps |-> <<3, 1, 0>>], [k |-> "range", a |-> 1, b |-> 2],
                           [k |-> "range", a |-> 0, b |-> NPart - 1], [k |-> "key", key |-> Rnd(RealKeys)]>>)} :
@@ -138,29 +142,41 @@ SimEPSub ==
                     ELSE Pick(<<[k |-> "none"], [k |-> "latest"], [k |-> "all", v |-> 0], [k |-> "all", v |-> Rnd(0..3)],
                                 [k |-> "map", m |-> <<[p |-> Rnd(SelParts(sel)), v |-> Rnd(0..2)]>>, d |-> 0 - 1],
                                 [k |-> "map", m |-> <<[p |-> Rnd(SelParts(sel)), v |-> Rnd(0..2)]>>, d |-> Rnd(0..2)]>>)} :
-       \E w \in {Pick(Wins)} : EPSub(sel, from, w)
-CanAck == \E i \in 1..Len(subs) : Delivered(log, subs[i]) > subs[i].ack
-SimEAck ==
+       \E w \in {Pick(Wins)} : EPSub(c, sel, from, w)
+Ackable == {j \in 1..Len(subs) : subs[j].open /\ Delivered(log, subs[j]) > subs[j].ack}
+CanAck == Ackable # {}
+SimEAck(c) ==
     /\ CanAck
-    /\ \E i \in {Rnd({j \in 1..Len(subs) : Delivered(log, subs[j]) > subs[j].ack})} :
-       \E c \in {IF Rnd(1..2) = 1 THEN Delivered(log, subs[i]) ELSE Rnd((subs[i].ack + 1)..Delivered(log, subs[i]))} : EAck(i, c)
+    /\ \E i \in {Rnd(Ackable)} :
+       \E u \in {IF Rnd(1..2) = 1 THEN Delivered(log, subs[i]) ELSE Rnd((subs[i].ack + 1)..Delivered(log, subs[i]))} :
+          EAck(subs[i].conn, i, u)
+SimEAckForeign(c) ==
+    LET F == {j \in 1..Len(subs) : subs[j].conn # c \/ ~subs[j].open} IN
+    IF F = {} THEN Invalid(c, "eack_unknown_subscription") ELSE \E i \in {Rnd(F)} : EAckForeign(c, i)
 
 SimNext ==
+    \E c \in {Rnd(Conns)} :
     \E c0 \in {Pick(<<"app", "app", "app", "app", "app", "mapp", "mapp", "mapp", "mapp", "get", "get", "scan", "scan", "scan",
-                     "pscan", "pscan", "pscan", "range", "sver", "pseq", "inv", "inv", "sub", "psub", "ack", "ack", "ack">>)} :
-    \E c \in {IF c0 = "ack" /\ ~CanAck THEN "app" ELSE IF c0 \in {"sub", "psub"} /\ Len(subs) >= 3 THEN "mapp" ELSE c0} :
-       \/ c = "app" /\ SimEAppend
-       \/ c = "mapp" /\ SimEMAppend
-       \/ c = "get" /\ SimEGet
-       \/ c = "scan" /\ SimEScan
-       \/ c = "pscan" /\ SimEPScan
-       \/ c = "range" /\ SimBadRange
-       \/ c = "sver" /\ SimESVer
-       \/ c = "pseq" /\ SimEPSeq
-       \/ c = "inv" /\ SimInvalid
-       \/ c = "sub" /\ SimESub
-       \/ c = "psub" /\ SimEPSub
-       \/ c = "ack" /\ SimEAck
+                      "pscan", "pscan", "pscan", "range", "sver", "pseq", "inv", "inv", "sub", "psub", "ack", "ack", "ack",
+                      "fack", "reconnect", "hello", "ping">>)} :
+    \E k \in {IF c0 = "ack" /\ ~CanAck THEN "app" ELSE IF c0 \in {"sub", "psub"} /\ Len(subs) >= 4 THEN "mapp"
+               ELSE IF c0 = "reconnect" /\ Rnd(1..3) # 1 THEN "scan" ELSE c0} :
+       \/ k = "app" /\ SimEAppend(c)
+       \/ k = "mapp" /\ SimEMAppend(c)
+       \/ k = "get" /\ SimEGet(c)
+       \/ k = "scan" /\ SimEScan(c)
+       \/ k = "pscan" /\ SimEPScan(c)
+       \/ k = "range" /\ SimBadRange(c)
+       \/ k = "sver" /\ SimESVer(c)
+       \/ k = "pseq" /\ SimEPSeq(c)
+       \/ k = "inv" /\ SimInvalid(c)
+       \/ k = "sub" /\ SimESub(c)
+       \/ k = "psub" /\ SimEPSub(c)
+       \/ k = "ack" /\ SimEAck(c)
+       \/ k = "fack" /\ SimEAckForeign(c)
+       \/ k = "reconnect" /\ Reconnect(c)
+       \/ k = "hello" /\ Hello(c)
+       \/ k = "ping" /\ Ping(c)
 
 View == <<log, n, subs>>
 XBound == n <= MaxCmd
